@@ -32,7 +32,7 @@ CONSTANTS Matches(_, _),      \* Matches(cfg, phrase): the candidate's account h
           Supported(_)        \* Supported(cfg): the requested length is one of 12, 15, 18, 21, 24
 
 \* cfg = [vanity |-> BOOLEAN, threads |-> N, ...data used by Matches...]
-Init(cfg) == [main |-> "init", cand |-> <<>>, st |-> <<>>, chan |-> <<>>, out |-> "", mainT |-> "none"]
+Init(cfg) == [main |-> "init", cand |-> <<>>, st |-> <<>>, chan |-> <<>>, out |-> "", mainT |-> "none", late |-> 0]
 
 Threads(s) == DOMAIN s.cand
 
@@ -56,8 +56,10 @@ MayRequest(cfg, s, t) ==
   /\ (s.main = "wait" => t # s.mainT /\ Cardinality((Threads(s) \ {s.mainT}) \cup {t}) <= cfg.threads)
   /\ StOf(s, t) = "run"
   /\ ~Matches(cfg, CandOf(s, t))
-WorkerGrant(cfg, s, t, p) == [s EXCEPT !.cand = (t :> p) @@ @, !.st = (t :> "run") @@ @]
-WorkerRefuse(cfg, s, t)   == [s EXCEPT !.cand = (t :> CandOf(s, t)) @@ @, !.st = (t :> "refused") @@ @]
+\* late: answers given to workers after some worker was refused (its Err message is then pending)
+Refused(s) == \E u \in Threads(s) : s.st[u] = "refused"
+WorkerGrant(cfg, s, t, p) == [s EXCEPT !.cand = (t :> p) @@ @, !.st = (t :> "run") @@ @, !.late = IF Refused(s) THEN @ + 1 ELSE @]
+WorkerRefuse(cfg, s, t)   == [s EXCEPT !.cand = (t :> CandOf(s, t)) @@ @, !.st = (t :> "refused") @@ @, !.late = IF Refused(s) THEN @ + 1 ELSE @]
 
 \* ---- the exit of the process (observable) ------------------------------------------
 \* Printed(p) is possible iff some thread's current candidate is p and matches (its Ok message may be
@@ -75,6 +77,12 @@ MayFail(cfg, s) ==
   \/ s.main \in {"wait", "inline"} /\ \E t \in Threads(s) : (t # s.mainT \/ s.main = "inline") /\ s.st[t] = "refused"
 \* the process may still be running (no exit observed within the time limit) only while no message can be
 \* pending: nobody is refused and nobody holds a matching candidate
+\* Liveness, observed: under weak fairness a pending message leads to exit (MC_Vanity: ExitsWhenMessagePending).
+\* In a recorded run the shim delays every request after an injected refusal by far more than a channel
+\* send/receive takes, so a conforming process answers at most the requests already in flight plus one delayed
+\* request per thread before it exits: 2 per thread (+2).  More than that means the search went on although an
+\* entropy failure had been reported.
+PromptExit(cfg, s) == s.late <= 2 * cfg.threads + 2
 MustHaveExited(cfg, s) ==
   \/ s.main \in {"printed", "failed"}
   \/ \E p \in {s.cand[t] : t \in Threads(s)} : MayPrint(cfg, s, p)
